@@ -128,6 +128,28 @@ func checkB64Bytes(r *harness.Run, b []byte) error {
 			return fmt.Errorf("UnmarshalJSON(%q) = %x, %v; want %x", s, []byte(j), err, b)
 		}
 	}
+	// a value that was handed out stays what it was when the same variable is decoded into again (and again through the
+	// JSON entry point), with a shorter, an equally long and a longer value
+	for _, later := range [][]byte{{}, {0xAA}, bytes.Repeat([]byte{0x55}, len(b)), bytes.Repeat([]byte{0x33}, len(b)+7)} {
+		var v spec.Base64Bytes
+		if err := v.Decode(enc); err != nil {
+			return fmt.Errorf("Decode(%q): %v", enc, err)
+		}
+		kept := v
+		if err := v.Decode(base64.RawStdEncoding.EncodeToString(later)); err != nil || !bytes.Equal(v, later) {
+			return fmt.Errorf("second Decode into the same variable gives %x, %v; want %x", []byte(v), err, later)
+		}
+		if !bytes.Equal(kept, b) {
+			return fmt.Errorf("a value decoded earlier (%x) reads %x after the same variable was decoded into again with %x", b, []byte(kept), later)
+		}
+		kept = v
+		if err := json.Unmarshal([]byte(`"`+enc+`"`), &v); err != nil || !bytes.Equal(v, b) {
+			return fmt.Errorf("UnmarshalJSON into a used variable gives %x, %v; want %x", []byte(v), err, b)
+		}
+		if !bytes.Equal(kept, later) {
+			return fmt.Errorf("a value decoded earlier (%x) reads %x after the same variable was unmarshalled into again", later, []byte(kept))
+		}
+	}
 	mj, err := json.Marshal(spec.Base64Bytes(b))
 	if err != nil || string(mj) != `"`+enc+`"` {
 		return fmt.Errorf("MarshalJSON(%x) = %s, %v", b, mj, err)
